@@ -119,6 +119,7 @@ def monitor(script, c):
     hits = []
     sl = script.split("\n")
     out = {int(l.split()[0]): l.split() for l in c if l.strip()}
+    consumed = set()
     for i, l in enumerate(sl, 1):
         t = l.split()
         if len(t) > 1 and t[0] == "#" and t[1] == "M":
@@ -136,6 +137,7 @@ def monitor(script, c):
                             A = bytes.fromhex(oa[4]) if oa[4] != "-" else b""
                             B = bytes.fromhex(ob[4]) if ob[4] != "-" else b""
                             if A[:cut] + B[off:] in (A, B):
+                                consumed.add((sl[i - 2].split()[1], A[:cut] + B[off:]))     # that genuine packet has now been accepted by this session
                                 continue
                 kind = {"~": "bit flip", "<": "truncation", "+": "extension", "cross": "RTP/RTCP splice", "s": "tag/trailer/MKI substitution", "roc": "a different rollover counter"}.get(t[2] if len(t) > 2 else "", "mutation")
                 hits.append({"what": f"a packet altered by {kind} was accepted", "signature": "mutated-accepted:" + kind.replace(" ", "-") + ":" + o[1],
@@ -144,6 +146,8 @@ def monitor(script, c):
             o = out.get(i - 1, [])
             src_line = sl[i - 2].split("|")[1].strip()
             ref = out.get(int(src_line[1:], 16), [])
+            if len(o) > 2 and len(ref) > 4 and int(o[2], 16) == 9 and (sl[i - 2].split()[1], bytes.fromhex(ref[4]) if ref[4] != "-" else b"") in consumed:
+                continue       # a substitution reproduced this very packet and the session accepted it: the second copy is a replay
             if len(o) > 2 and len(ref) > 2 and int(ref[2], 16) == 0 and int(o[2], 16) != 0:
                 hits.append({"what": "genuine packet rejected by a fresh receiver with the same keys", "signature": "genuine-rejected:" + o[1],
                              "detail": f"line {i-1}: status {o[2]}"}); break
